@@ -29,6 +29,11 @@ def history(r, coin, nblocks, few_addresses=False, many_outputs=False, wide=Fals
             c = r.random()
             if pool and c < 0.7: op = r.choice(pool); 
             elif pool and c < 0.8: op = r.choice(pool); tags.add('double_reference')
+            elif pool and c < 0.9:
+                # an outpoint that exists nowhere but is a near miss of a live one: same index, txid equal in the first or in the last 16 bytes, or differing in one bit
+                t_, i_ = r.choice(pool); k_ = r.randrange(3)
+                t2 = t_[:16] + gen.rb(r, 16) if k_ == 0 else gen.rb(r, 16) + t_[16:] if k_ == 1 else bytes([t_[0] ^ 1]) + t_[1:]
+                op = (t2, i_); tags.add('near_miss_outpoint')
             else: op = (gen.rb(r, 32), r.randrange(3)); tags.add('unknown_outpoint')
             ins.append((op[0], op[1], b'', 0xffffffff))
         if txs and r.random() < 0.25:      # sweep: consecutive inputs spend ALL outputs of one earlier transaction in index order (address-less ones included, often first)
@@ -134,7 +139,7 @@ def small_histories(r, limit):
 
 def explore(ck, cb='unspent', few=False):
     r = ck.rng; quick = ck.tier == 'quick'
-    ck.rule = ('random spend histories (fan-in/out, same-block spends, forward references to outputs of later transactions, several inputs on one tx, blocks of 36..47 transactions in arbitrary order, the null outpoint as first of several inputs, transactions with over-long CompactSize encodings that are spent later, sweeps of all outputs of one transaction by consecutive inputs (address-less output first), unknown outpoints, double references, '
+    ck.rule = ('random spend histories (fan-in/out, same-block spends, forward references to outputs of later transactions, several inputs on one tx, blocks of 36..47 transactions in arbitrary order, the null outpoint as first of several inputs, transactions with over-long CompactSize encodings that are spent later, sweeps of all outputs of one transaction by consecutive inputs (address-less output first), unknown outpoints (random, and near misses of live ones: txid equal in 16 bytes or all but one bit, same index), double references, '
                'address-less outputs of every kind, ranges without any address-bearing output (header-only dump), spend-to-empty / refund / brand-new-address sequences, zero values, duplicate coinbase txids at different heights, > 255 outputs) x ranges x 8 coins, plus bounded-exhaustive two-block histories over a '
                'fixed outpoint pool; the row set of the dump is compared with the model and with the property\'s definition evaluated over the csvdump rows. '
                'Non-trivial: >= 1 in-range spend of an in-range output; distinct by history.')
